@@ -453,6 +453,19 @@ class Fold(ast.NodeTransformer):
                     if isinstance(k, ast.Constant) and k.value == n.slice.value:
                         self.changed = True
                         return copy.deepcopy(v)
+        # [a, b, c][1:] / (a, b, c)[:2] with constant bounds: the sub-display ; [a, b][0] like the tuple case below
+        if isinstance(n.value, (ast.List, ast.Tuple)) and isinstance(n.ctx, ast.Load) and not any(isinstance(x, ast.Starred) for x in n.value.elts) \
+                and all(_cheap(x) or _const(x) for x in n.value.elts):
+            sl = n.slice
+            if isinstance(sl, ast.Slice) and all(b_ is None or (isinstance(b_, ast.Constant) and isinstance(b_.value, int)) for b_ in (sl.lower, sl.upper, sl.step)):
+                lo, hi, stp = [None if b_ is None else b_.value for b_ in (sl.lower, sl.upper, sl.step)]
+                if stp != 0:
+                    self.changed = True
+                    return ast.copy_location(type(n.value)(elts=list(n.value.elts)[slice(lo, hi, stp)], ctx=ast.Load()), n)
+            if isinstance(n.value, ast.List) and isinstance(sl, ast.Constant) and isinstance(sl.value, int) and not isinstance(sl.value, bool) \
+                    and -len(n.value.elts) <= sl.value < len(n.value.elts):
+                self.changed = True
+                return n.value.elts[sl.value]
         # (a, b, c)[1] with a constant index
         if isinstance(n.value, ast.Tuple) and isinstance(n.slice, ast.Constant) and isinstance(n.slice.value, int) and isinstance(n.ctx, ast.Load) \
                 and -len(n.value.elts) <= n.slice.value < len(n.value.elts) and not any(isinstance(x, ast.Starred) for x in n.value.elts):
@@ -2784,6 +2797,8 @@ def propagate_readonly_displays(repo, f):
     def candidate(v):
         if isinstance(v, (ast.List, ast.Tuple)) and v.elts and all(isinstance(x, ast.Constant) and isinstance(x.value, (str, int)) for x in v.elts):
             return "seq"
+        if isinstance(v, (ast.List, ast.Tuple)) and 1 <= len(v.elts) <= 8 and all(isinstance(x, ast.Name) and stable(x.id) for x in v.elts):
+            return "names"
         if isinstance(v, ast.Dict) and v.keys and None not in v.keys and all(isinstance(k, ast.Constant) and isinstance(k.value, str) for k in v.keys) \
                 and all(isinstance(x, ast.Constant) or (isinstance(x, ast.Name) and stable(x.id)) for x in v.values):
             return "dict"
@@ -2824,6 +2839,10 @@ def propagate_readonly_displays(repo, f):
             after = {id(x) for later in lst[lst.index(st) + 1:] for x in ast.walk(later)}
             if not uses or any(id(u) not in after for u in uses):
                 continue
+            if kind == "names":
+                earlier = {t.id for e_ in lst[:lst.index(st)] for t in ast.walk(e_) if isinstance(t, ast.Name) and isinstance(t.ctx, ast.Store)}
+                if any(x.id not in params and x.id not in earlier for x in st.value.elts):
+                    continue
             if kind == "dict":
                 # the value names must already be bound where the display is built and never re-bound: parameters, or locals bound once
                 # in an earlier statement of the same list
@@ -2841,6 +2860,18 @@ def propagate_readonly_displays(repo, f):
                     q_ = par.get(q_)
                 if isinstance(p_, (ast.For, ast.comprehension)) and p_.iter is u:
                     return True
+                if kind == "names":
+                    # a display of objects: only positions are read (X[0], X[1:], len(X), iteration)
+                    if isinstance(p_, ast.Subscript) and p_.value is u and isinstance(p_.ctx, ast.Load):
+                        sl = p_.slice
+                        if isinstance(sl, ast.Constant) and isinstance(sl.value, int):
+                            return True
+                        if isinstance(sl, ast.Slice) and all(b_ is None or (isinstance(b_, ast.Constant) and isinstance(b_.value, int)) for b_ in (sl.lower, sl.upper, sl.step)):
+                            return True
+                        return False
+                    if isinstance(p_, ast.Call) and isinstance(p_.func, ast.Name) and p_.func.id == "len" and p_.func.id not in counts:
+                        return True
+                    return False
                 if isinstance(p_, ast.Compare) and len(p_.ops) == 1 and isinstance(p_.ops[0], (ast.In, ast.NotIn)) and p_.comparators[0] is u:
                     return True
                 if isinstance(p_, ast.BinOp) and isinstance(p_.op, ast.Add) and kind == "seq":
